@@ -4,6 +4,7 @@ import GSProofs.Lemmas.PauseRequestor
 import GSProofs.Lemmas.PauseConservative
 import GSProofs.Lemmas.PauseWalk
 import GSProofs.Lemmas.PauseEarly
+import GSProofs.Lemmas.PauseLate
 import GSProofs.C01
 /-!
 # C06 — Pausing and resuming an exchange does not change its result
@@ -45,13 +46,20 @@ history), `pause_effects`, `reopen_fresh`, `requestor_pause_resume_before_online
 before the response arrives: identical to the uninterrupted exchange for every message list),
 `requestor_pause_resume_local` (the requestor's own store
 covers the traversal: any number of pauses, by hook at any block indices or through the API, and any
-resume timing give exactly the uninterrupted result), and the regression
-`stale_queue_regression` for the defect fixed in /repo b4f998f.
+resume timing give exactly the uninterrupted result), `requestor_pause_resume_complete_response` (the
+hook pauses at ANY block of the remote part while the message with the response's final success
+status is being processed — the whole response has arrived —, for every link tree, store, earlier
+message list and responder stream under which the uninterrupted exchange reports no missing block:
+identical result; built on `GSProofs/Lemmas/PauseLate.lean`: a hooked executor run splits into the
+plain run up to block `k` and the plain run from there, spare fuel is never used, `requestSent` is
+read only at a miss), and the regression `stale_queue_regression` for the defect fixed in /repo
+b4f998f.
 
-NOT proved (statement kept at the end of the file): `requestor_pause_resume_partial`, the general
-requestor statement under the hypotheses "no message of the cancelled response arrives after the
-loader re-opened", "the responder serves the resumed request with its honest stream" and the
-hypotheses of C02's partial theorem.
+NOT proved (statement kept at the end of the file, with the exact missing lemma): the remaining case
+of `requestor_pause_resume_partial` — a resume after which the executor misses locally and RE-OPENS
+the request (new response verified against a non-empty traversal record): C02's completeness for
+N > 0, which the loader agent's `complete_remote_start` (N = 0) and `kahn_schedule` (no `RetryLastLoad`
+after a remote load) do not cover.
 -/
 namespace GS.C06
 open GS.Loader GS.Requestor GS.PauseResume
@@ -476,6 +484,62 @@ def exFirst : List PauseResume.Op := (batchMsgs [9] (honest exLT exRem 0) 21).ma
 /-- the honest response to the resumed request (skip 2: the blocks 2 and 1 were loaded) -/
 def exSecond : List PauseResume.Op := (batchMsgs [9] (honest exLT exRem 2) 21).map PauseResume.Op.msg
 
+/-- **C06.requestor_pause_resume_complete_response.**  Any link tree, local store, user skip value and
+    hook index `k`; any messages `m1` (honest or not) during which block `k` is not reached, followed by
+    the message `M` that carries the response's final success status (RequestCompletedFull / Partial):
+    the response is complete when the block hook pauses the request at block `k`, and the request is
+    resumed (`Unpause`).  The request has gone to the network and its context has not been cancelled
+    before `M` (`hsent`, `hctx`: facts about the uninterrupted exchange).  If the uninterrupted exchange
+    reports no missing block, the paused and resumed exchange ends in the same requestor state — same
+    block store, same traverser, same loader, finished or not alike; only the executor's `requestSent`
+    flag may differ — and reports the same blocks, missing-block errors, other errors, delivered nodes
+    and request messages: the resume re-uses the blocks already queued and never goes back to the
+    network.  (With a missing block after the pause point the resumed executor goes online again with
+    a non-empty traversal record: the open case described at the end of this file.) -/
+theorem requestor_pause_resume_complete_response (st : List (Cid × Blk)) (lt : LT) (u k : Nat)
+    (m1 : List Requestor.Msg) (M : Requestor.Msg)
+    (hsucc : isSuccess M.status = true)
+    (hpre : (Requestor.exchange st lt u m1).1.nBlocks < k)
+    (hsent : (Requestor.exchange st lt u m1).1.requestSent = true)
+    (hctx : (Requestor.exchange st lt u m1).1.ctxCancelled = false)
+    (hnm : missingOf (Requestor.exchange st lt u (m1 ++ [M])).2 = []) :
+    let res := PauseResume.exchange st lt u [k] (m1.map toOp ++ [toOp M, PauseResume.Op.unpause])
+    let base := Requestor.exchange st lt u (m1 ++ [M])
+    res.1.paused = false ∧ (res.1.R = base.1 ∨ res.1.R = unsent base.1) ∧
+    res.1.R.L = base.1.L ∧ res.1.R.todo = base.1.todo ∧ res.1.R.phase = base.1.phase ∧
+    PauseResume.blocksOf res.2 = PauseResume.blocksOf base.2 ∧ missingOf res.2 = missingOf base.2 ∧
+    hardErrs res.2 = hardErrs base.2 ∧ delivered res.2 = delivered base.2 ∧ sentNews res.2 = sentNews base.2 := by
+  intro res base
+  obtain ⟨e1, e2, c, R, hc, hR, hb, hres⟩ := late_pause st lt u k m1 M hsucc hpre hsent hctx hnm
+  have hr : res = (hooked [k] R, e1 ++ c ++ e2) := hres
+  have hbb : base.2 = e1 ++ e2 := hb
+  have hRR : R = base.1 ∨ R = unsent base.1 := hR
+  rw [hr, hbb]
+  have hfields : R.L = base.1.L ∧ R.todo = base.1.todo ∧ R.phase = base.1.phase := by
+    rcases hRR with h | h <;> (rw [h]; exact ⟨rfl, rfl, rfl⟩)
+  refine ⟨rfl, hRR, hfields.1, hfields.2.1, hfields.2.2, ?_, ?_, ?_, ?_, ?_⟩
+  · rcases hc with hc | hc <;> subst hc <;> simp [blocksOf_append, PauseResume.blocksOf]
+  · rcases hc with hc | hc <;> subst hc <;> simp [missingOf_append, missingOf]
+  · rcases hc with hc | hc <;> subst hc <;> simp [hardErrs_append, hardErrs]
+  · rcases hc with hc | hc <;> subst hc <;> simp [delivered_append, delivered]
+  · rcases hc with hc | hc <;> subst hc <;> simp [sentNews_append, sentNews]
+
+/-- non-vacuity of `requestor_pause_resume_complete_response`: the requestor holds nothing, the whole
+    response (three blocks, status RequestCompletedFull) arrives in one message, the hook pauses after
+    the second block: the pause does fire (a cancel is sent), the resumed executor takes the third block
+    from the queue (concrete values) -/
+example :
+    let lt : LT := [⟨9, [], 0, 2, 0⟩, ⟨2, [0], 1, 1, 1⟩, ⟨3, [1], 1, 1, 0⟩]
+    let M : Requestor.Msg := ⟨true, true, 20, [(9, .present), (2, .present), (3, .present)], [(9, 9), (2, 2), (3, 3)]⟩
+    isSuccess M.status = true ∧ (Requestor.exchange [] lt 0 []).1.nBlocks < 2 ∧
+    (Requestor.exchange [] lt 0 []).1.requestSent = true ∧ (Requestor.exchange [] lt 0 []).1.ctxCancelled = false ∧
+    missingOf (Requestor.exchange [] lt 0 ([] ++ [M])).2 = [] ∧
+    (PauseResume.exchange [] lt 0 [2] [toOp M]).1.paused = true ∧
+    (PauseResume.exchange [] lt 0 [2] [toOp M, PauseResume.Op.unpause]).2 =
+      [.sentNew 0, .write 9 9, .block 9 [] false 1, .prog 2, .write 2 2, .block 2 [0] false 2, .prog 1,
+       .sentCancel, .write 3 3, .block 3 [1] false 3, .prog 1] := by
+  refine ⟨by decide, by decide, by decide, by decide, by decide, by decide, by decide⟩
+
 /-- **regression (b4f998f).**  Pause at block 1 while the rest of the response — including the item of
     the link the responder lacks — is already queued in the loader; after Unpause the traversal consumes
     the queued item of block 1, meets the queued `missing` item of block 0, misses locally and goes online
@@ -529,7 +593,7 @@ theorem requestor_skip_prefix_counterexample :
     PauseResume.blocksOf res.2 = [(6, []), (1, [0, 1]), (0, [0, 1, 2]), (4, [4])] ∧ missingOf res.2 = [(5, [5])] := by
   decide
 
-/-! ## the general requestor statement (NOT proved)
+/-! ## the general requestor statement: what is proved, what remains
 
 Full strength (false, see the counterexamples above):
 
@@ -537,8 +601,8 @@ Full strength (false, see the counterexamples above):
       the responder's messages in any order that respects the order within each response),
       result (paused exchange) = result (uninterrupted exchange)
 
-Partial statement that the harness `pauseres` has not been able to refute (≈ 20 000 generated cases per
-thorough run, every failure outside it falls in one of the three known classes):
+Partial statement that the harness `pauseres` has not been able to refute (6 000 generated cases per
+thorough run; every failure outside it falls in one of the known classes):
 
   theorem requestor_pause_resume_partial (st lt u rem) (k : Nat)        -- pause after the k-th block
       (hC02 : PrefixHeldByResponder st rem lt)                          -- hypothesis of C02's partial theorem,
@@ -552,13 +616,45 @@ thorough run, every failure outside it falls in one of the three known classes):
                                                                                --   `stale_dropped_run`)
       blocksOf res = blocksOf base ∧ missingOf res = missingOf base ∧ stored res = stored base
 
-What is missing for a proof: (1) the verifier replay lemma (verifying the honest stream against the
-traversal record it produced succeeds and consumes exactly the recorded prefix — an induction over the
-path trie), (2) order independence of ingest and load steps (C02's `kahn`, open), (3) C02's
-`complete_partial` (open).  The ingredients that ARE proved: stale messages are dropped while paused
-(`stale_dropped_run`), the re-opened loader starts from an empty queue and a fresh verifier over the
-whole record (`reopen_fresh`), the pause itself only sends a cancel and keeps traverser, store and record
-(`pause_effects`), and the local case (`requestor_pause_resume_local`).
+A resume falls in exactly one of three cases, by what the resumed executor does at its first local miss:
+
+ (a) there is no further local miss, because the rest of the traversal is held locally:
+     PROVED — `requestor_pause_resume_before_online` (pause in the local phase, any later messages) and
+     `requestor_pause_resume_local` (everything local, any number of pauses).
+ (b) there is no further local miss, because the response was complete when the pause fired (final
+     success status processed: the loader is offline and keeps its queue) and no block is missing:
+     PROVED — `requestor_pause_resume_complete_response`, for every `k`, every earlier message list and
+     every (honest or dishonest) content of the messages.
+ (c) the resumed executor misses locally and goes online again: `SetRemoteOnline(true)` builds a
+     verifier over the traversal record of the `k` blocks loaded so far, the request is sent again
+     with do-not-send-first-blocks = max(u, k), and the new response is verified against that record
+     before its first new block is used.  NOT PROVED.  The loader agent's lemmas do not reach it:
+       * `GS.C02.complete_remote_start` / `Loader.walk_refTrav` are for a request that goes online
+         at the ROOT with an EMPTY traversal record (N = 0 locally traversed blocks, the whole
+         response ingested before the walk).  A resumed request has k ≥ 1 recorded blocks — some
+         loaded locally, some from the cancelled response — so it is their open case N > 0, with
+         the extra twist that the record mixes local and remote loads;
+       * `GS.C02.kahn_schedule` / `kahn_same_messages` (interleaving independence of ingest and
+         load) hold for clients that never call `RetryLastLoad` on a load that used the remote
+         queue; the re-opening executor does exactly that (`kahn_counterexample_retry` shows the
+         restriction is necessary), so the order of `second`'s deliveries relative to the resumed
+         loads is not covered either.
+     Precisely, what is missing is
+
+       theorem reopen_complete (rem loc lt) (k ≥ 1) (rec := the traversal record of the first k loads
+           of refTrav rem lt loc) :
+         walk (afterResponse' loc rec (respItems rem lt (skip := max u k))) (lt from its k-th node on)
+           = the tail of refTrav rem lt loc from the k-th node on
+
+     (verifier replay: the honest stream for skip k, checked against the record of the first k loads,
+     is accepted and consumed up to exactly the k-th entry — an induction over the path trie), plus
+     C02's `PrefixHeldByResponder` hypothesis (without it: `requestor_skip_prefix_counterexample`).
+     With `reopen_complete`, case (c) follows from the ingredients proved here: `driveP_split` (the run
+     up to the pause is the uninterrupted run), `stale_dropped_run` (messages of the cancelled
+     response that arrive while paused are dropped), `reopen_fresh` (the re-opened loader starts from an
+     empty queue and a fresh verifier over the whole record), `pause_effects`.  The two known findings
+     (`stale-response-after-resume`, `resume-overtakes-cancel`) are the histories excluded by
+     "the rest of `first` never arrives after the loader re-opened".
 -/
 
 end GS.C06
